@@ -87,6 +87,8 @@ type sched struct {
 	switches   int
 	h          hash.Hash
 	sig        hash.Hash64
+	lockSig    hash.Hash64
+	lockAcq    int
 	trace      []string
 	traceFull  bool
 	choices    []int32
@@ -122,6 +124,7 @@ func newSched(seg *Segment, progress *atomic.Int64) *sched {
 		addrIdx:   map[uintptr]int{},
 		h:         sha256.New(),
 		sig:       fnv.New64a(),
+		lockSig:   fnv.New64a(),
 		sites:     map[int32]int{},
 		probes:    map[string]int{},
 		stepCap:   seg.StepCap,
@@ -470,6 +473,10 @@ func (s *sched) release(g *gor, run []*gor) {
 		if m.Arg != 2 {
 			s.lock(m.Addr).writer = g.id
 		}
+		// order in which callers obtained the locks (a coarse measure of distinct cache-growth orders)
+		s.lockSig.Write([]byte(g.role))
+		s.lockSig.Write([]byte{';'})
+		s.lockAcq++
 	case rt.KRLock:
 		s.lock(m.Addr).readers++
 	case rt.KMapRange:
@@ -668,6 +675,9 @@ func (s *sched) fill(res *Result) {
 	res.Switches = s.switches
 	res.TraceHash = hex.EncodeToString(s.h.Sum(nil)[:12])
 	res.SwitchSig = fmt.Sprintf("%016x", s.sig.Sum64())
+	if s.lockAcq > 0 {
+		res.LockSig = fmt.Sprintf("%016x", s.lockSig.Sum64())
+	}
 	res.Trace = s.trace
 	res.Choices = s.choices
 	res.MapPay = s.mapPay
